@@ -237,6 +237,9 @@ func (lifeComp) Exec(op string) (string, string, string, bool) {
 		}
 	}
 	perConn := int(grow + 0.5)
+	if perConn < 0 {
+		perConn = 0 // goroutines of an earlier scenario that were still ending when the baseline was taken
+	}
 	res := fmt.Sprintf("grow=%d spin=%v", perConn, spin)
 	if after != "" {
 		return res + " after=stuck", after, carrier + " " + closer + " " + ending, true
